@@ -520,6 +520,7 @@ struct Ctx<'a> {
     shapes: &'a mut Shapes,
     n_cases: usize,
     stats: BTreeMap<String, u64>,
+    tampered: bool,
 }
 
 impl<'a> Ctx<'a> {
@@ -538,6 +539,20 @@ impl<'a> Ctx<'a> {
                 let xa = txid_of(a);
                 let xa_s = opt(xa.as_ref().map(|x| format!("{}", it.id(hex(x)))));
                 case(format!("CRole {} {} {} (Some {}) {} {}", role as u32, sub, tb, ta, xb_s, xa_s));
+                // the same step seen after `resolve_fields` (derived / compact representations expanded)
+                let shielded = !before.orchard().actions().is_empty() || !before.ironwood().actions().is_empty();
+                if shielded && (self.tampered || role == Role::Redactor) {
+                    let mut rb = before.clone();
+                    let mut ra = a.clone();
+                    let ok = catch(|| rb.resolve_fields().is_ok() && ra.resolve_fields().is_ok()).unwrap_or(false);
+                    if ok {
+                        let trb = tree(&rb, &mut it, self.shapes);
+                        let tra = tree(&ra, &mut it, self.shapes);
+                        case(format!("CResolved {} {} {}", role as u32, trb, tra));
+                        self.n_cases += 1;
+                        self.bump("resolved");
+                    }
+                }
             }
             None => case(format!("CRole {} {} {} None {} None", role as u32, sub, tb, xb_s)),
         }
@@ -1454,6 +1469,133 @@ fn effects_case(cx: &mut Ctx, p: &Pczt) {
     cx.n_cases += 1;
 }
 
+
+// ---------------------------------------------------------------------------------------------
+// Inconsistent-but-parseable PCZTs: one advertised note field of an Orchard / Ironwood output is
+// edited in the v2 encoding (the ciphertext, cmx and cv_net keep describing the original note)
+// ---------------------------------------------------------------------------------------------
+
+fn varint(mut v: u64) -> Vec<u8> {
+    let mut out = vec![];
+    loop {
+        if v < 128 {
+            out.push(v as u8);
+            return out;
+        }
+        out.push((v & 0x7f) as u8 | 0x80);
+        v >>= 7;
+    }
+}
+
+fn find_unique(hay: &[u8], needle: &[u8]) -> Option<usize> {
+    let mut found = None;
+    if needle.is_empty() || hay.len() < needle.len() {
+        return None;
+    }
+    for i in 0..=(hay.len() - needle.len()) {
+        if &hay[i..i + needle.len()] == needle {
+            if found.is_some() {
+                return None;
+            }
+            found = Some(i);
+        }
+    }
+    found
+}
+
+/// kind 0: advertised value + 1 (or - 1); 1: one bit of the recipient's diversifier; 2: one bit of rseed.
+fn tamper_output(p: &Pczt, ironwood: bool, idx: usize, kind: u32, rng: &mut Rng) -> Option<Pczt> {
+    let b = if ironwood { p.ironwood() } else { p.orchard() };
+    let a = b.actions().get(idx)?;
+    let rcp = (*a.output().recipient())?;
+    let val = (*a.output().value())?;
+    let mut bytes = pczt::v2::Pczt::try_from(p.clone()).ok()?.serialize();
+    let vi = varint(val);
+    let mut pat = vec![1u8];
+    pat.extend_from_slice(&rcp);
+    pat.push(1);
+    pat.extend_from_slice(&vi);
+    pat.push(1); // rseed: Some
+    let pos = find_unique(&bytes, &pat)?;
+    match kind {
+        0 => {
+            let nv = if val & 0x7f != 0x7f { val + 1 } else { val - 1 };
+            let ni = varint(nv);
+            if ni.len() != vi.len() {
+                return None;
+            }
+            let at = pos + 1 + 43 + 1;
+            bytes[at..at + ni.len()].copy_from_slice(&ni);
+        }
+        1 => {
+            let at = pos + 1 + rng.below(11) as usize;
+            bytes[at] ^= 1 << rng.below(8);
+        }
+        _ => {
+            let at = pos + pat.len() + rng.below(32) as usize;
+            bytes[at] ^= 1 << rng.below(8);
+        }
+    }
+    let q = Pczt::parse(&bytes).ok()?;
+    Some(q)
+}
+
+fn compact_all(p: &Pczt) -> Pczt {
+    Redactor::new(p.clone())
+        .redact_orchard_with(|mut o| o.compact_resolvable_fields())
+        .redact_ironwood_with(|mut o| o.compact_resolvable_fields())
+        .finish()
+}
+
+/// Role steps on tampered copies: the identifier and the (resolved) effecting fields must not move.
+fn tamper_stream(cx: &mut Ctx, b: &Base, rounds: usize) {
+    cx.tampered = true;
+    for round in 0..rounds {
+        let ironwood = !b.pczt.ironwood().actions().is_empty() && (b.pczt.orchard().actions().is_empty() || cx.rng.bool());
+        let n = if ironwood { b.pczt.ironwood().actions().len() } else { b.pczt.orchard().actions().len() };
+        if n == 0 {
+            break;
+        }
+        let idx = cx.rng.below(n as u64) as usize;
+        let kind = if round < 2 { 0 } else { cx.rng.below(3) as u32 };
+        // the first rounds tamper every action in turn so that the paying output is always hit
+        let idx = if round < n { round } else { idx };
+        let t = match tamper_output(&b.pczt, ironwood, idx, kind, cx.rng) {
+            Some(t) => t,
+            None => {
+                cx.bump("tamper_unavailable");
+                continue;
+            }
+        };
+        cx.bump(&format!("tamper_kind{}", kind));
+        // Redactor: compaction of resolvable fields
+        let r = compact_all(&t);
+        cx.role_case(Role::Redactor, 30 + kind, &t, Some(&r));
+        // ... and the other roles on the tampered copy and on its compacted form
+        for src in [&t, &r] {
+            match cx.rng.below(4) {
+                0 => {
+                    updater_step(cx, src, 0);
+                }
+                1 => {
+                    iofinalizer_step(cx, src);
+                }
+                2 => {
+                    signer_step(cx, src, b);
+                }
+                _ => {
+                    redactor_step(cx, src);
+                }
+            }
+        }
+        if let Some(f) = iofinalizer_step(cx, &t) {
+            let r2 = compact_all(&f);
+            cx.role_case(Role::Redactor, 40 + kind, &f, Some(&r2));
+        }
+    }
+    cx.tampered = false;
+}
+
 // ---------------------------------------------------------------------------------------------
 
 fn random_spec(rng: &mut Rng) -> Spec {
@@ -1547,7 +1689,7 @@ fn main() {
             Some(b) => b,
             None => return,
         };
-        let mut cx = Ctx { rng, k, shapes, n_cases: 0, stats: BTreeMap::new() };
+        let mut cx = Ctx { rng, k, shapes, n_cases: 0, stats: BTreeMap::new(), tampered: false };
         cx.bump(&format!("spec_v{}_t{}_{}_s{}{}_o{}{}_i{}{}", if spec.v6 { 6 } else { 5 }, spec.tin.len(), spec.tout, spec.sspend as u8, spec.sout, spec.ospend as u8, spec.oout, spec.iout, if spec.deferred { "_deferred" } else { "" }));
         let n = cx.rng.range(2, 4) as usize;
         let mut ps: Vec<Pczt> = vec![];
@@ -1620,6 +1762,10 @@ fn main() {
         }
         if let Ok(bytes) = ps[0].clone().serialize() {
             sers.push(bytes);
+        }
+        if spec.oout + spec.iout > 0 && (mode == 0 || cx.rng.chance(1, 3)) {
+            let rounds = if mode == 0 { 3 } else { 2 };
+            tamper_stream(&mut cx, &b, rounds);
         }
         // compaction of resolvable fields (memo plaintext instead of the ciphertext), then encode
         if spec.oout + spec.iout > 0 {
@@ -1704,7 +1850,7 @@ fn main() {
             Spec { tin: vec![110_000, 0], tout: 1, zero_tout: true, ..Default::default() },
         ];
         let bases: Vec<Base> = fam.iter().filter_map(|s| build_base(s, k, &mut rng)).collect();
-        let mut cx = Ctx { rng: &mut rng, k, shapes: &mut shapes, n_cases: 0, stats: BTreeMap::new() };
+        let mut cx = Ctx { rng: &mut rng, k, shapes: &mut shapes, n_cases: 0, stats: BTreeMap::new(), tampered: false };
         cx.bump(&format!("prefix_family_{}", bases.len()));
         let flagsets: [u8; 6] = [0x83, 0x03, 0x01, 0x02, 0x00, 0x80];
         let rounds = a.budget(40, 300);
@@ -1736,7 +1882,7 @@ fn main() {
     // malformed stream: byte mutations, truncations, header lattice
     {
         let k = &k5;
-        let mut cx = Ctx { rng: &mut rng, k, shapes: &mut shapes, n_cases: 0, stats: BTreeMap::new() };
+        let mut cx = Ctx { rng: &mut rng, k, shapes: &mut shapes, n_cases: 0, stats: BTreeMap::new(), tampered: false };
         let n_mut = a.budget(150, 2000);
         for i in 0..n_mut {
             if sers.is_empty() {
